@@ -2,6 +2,8 @@
 EXTENDS StrIndex, Json, IOUtils, SequencesExt
 CONSTANTS MaxChars
 MCStrs  == StrsUpTo({CA, CNT, CSQRT, CCRAB}, MaxChars) \cup StrsUpTo(EdgeChars, 2)
+             \cup {CA \o c \o <<98>> : c \in LeadChars} \cup LeadChars
+ASSUME {c[1] : c \in LeadChars} = 194..244        \* every byte that can start a multi-byte character
 MCExtra == {126, 127, 128, 129, 254, 255}
 Vec(k) == [m |-> "StrIndex", op |-> k[1], s |-> k[2], a |-> k[3], b |-> k[4], exp |-> Ref(k[1], k[2], k[3], k[4])]
 \* keys are homogeneous tuples (cheap to normalise); the heterogeneous records are built as a sequence
